@@ -2,7 +2,7 @@
 // tree under test (nothing in /repo is modified):
 //
 //  1. the sync shim package is added as the virtual package v3/lint/verifsync;
-//  2. every file of package lint that imports "sync" gets that import redirected to the shim;
+//  2. every instrumented file that imports "sync" gets that import redirected to the shim;
 //  3. every iteration of the execute* loops of v3/resultset.go gets a Yield;
 //  4. mutable-global census: every package-level variable of v3, v3/lint, v3/util and v3/lints/*
 //     that is syntactically written outside init() and declarations (assigned, inc/dec'd,
@@ -82,6 +82,26 @@ func main() {
 		}
 		// package-level variables
 		globals := map[string]bool{}
+		// census of syntactic writes outside init
+		mutable := map[string]bool{}
+		// mentionsSync: the declared type (or the type of the initialiser) names package sync or sync/atomic —
+		// sync.Map, sync.Pool, sync.Once, atomic.Pointer[T], atomic.Bool …: state that exists to be written
+		// concurrently, whatever the method names are
+		mentionsSync := func(e ast.Node) bool {
+			found := false
+			if e == nil {
+				return false
+			}
+			ast.Inspect(e, func(n ast.Node) bool {
+				if sel, ok := n.(*ast.SelectorExpr); ok {
+					if id, ok := sel.X.(*ast.Ident); ok && (id.Name == "sync" || id.Name == "atomic") {
+						found = true
+					}
+				}
+				return !found
+			})
+			return found
+		}
 		for _, af := range parsed {
 			for _, d := range af.Decls {
 				gd, ok := d.(*ast.GenDecl)
@@ -89,16 +109,29 @@ func main() {
 					continue
 				}
 				for _, sp := range gd.Specs {
-					for _, n := range sp.(*ast.ValueSpec).Names {
+					vs := sp.(*ast.ValueSpec)
+					syncTyped := vs.Type != nil && mentionsSync(vs.Type)
+					for _, v := range vs.Values {
+						if cl, ok := v.(*ast.CompositeLit); ok && cl.Type != nil && mentionsSync(cl.Type) {
+							syncTyped = true
+						}
+						if ue, ok := v.(*ast.UnaryExpr); ok {
+							if cl, ok := ue.X.(*ast.CompositeLit); ok && cl.Type != nil && mentionsSync(cl.Type) {
+								syncTyped = true
+							}
+						}
+					}
+					for _, n := range vs.Names {
 						if n.Name != "_" {
 							globals[n.Name] = true
+							if syncTyped && af.Name.Name != "lint" { // package lint's locks go through the shim instead
+								mutable[n.Name] = true
+							}
 						}
 					}
 				}
 			}
 		}
-		// census of syntactic writes outside init
-		mutable := map[string]bool{}
 		rootIdent := func(e ast.Expr) string {
 			for {
 				switch x := e.(type) {
@@ -163,6 +196,13 @@ func main() {
 						if id, ok := x.Fun.(*ast.Ident); ok && (id.Name == "copy" || id.Name == "clear" || id.Name == "delete") && len(x.Args) > 0 {
 							mark(x.Args[0])
 						}
+						// methods that write by their very name, called on something rooted in a package-level variable
+						if sel, ok := x.Fun.(*ast.SelectorExpr); ok {
+							switch sel.Sel.Name {
+							case "Store", "Swap", "CompareAndSwap", "LoadOrStore", "LoadAndDelete", "Delete", "Put", "Add", "Set", "Reset", "Write", "WriteString", "Grow", "Truncate":
+								mark(sel.X)
+							}
+						}
 					}
 					return true
 				})
@@ -195,14 +235,16 @@ func main() {
 					}
 					return true
 				})
-				for _, im := range af.Imports {
-					if p, _ := strconv.Unquote(im.Path.Value); p == "sync" {
-						im.Path.Value = strconv.Quote(shimPath)
-						im.Name = ast.NewIdent("sync")
-						changed = true
-						r, _ := filepath.Rel(root, names[i])
-						cen.SyncRedirects = append(cen.SyncRedirects, r)
-					}
+			}
+			// every instrumented package (not only lint): a real sync.Mutex / Once taken by a thread that the
+			// cooperative scheduler then pre-empts would block the next thread for real and hang the run
+			for _, im := range af.Imports {
+				if p, _ := strconv.Unquote(im.Path.Value); p == "sync" {
+					im.Path.Value = strconv.Quote(shimPath)
+					im.Name = ast.NewIdent("sync")
+					changed = true
+					r, _ := filepath.Rel(root, names[i])
+					cen.SyncRedirects = append(cen.SyncRedirects, r)
 				}
 			}
 			yield := func(pos token.Pos) ast.Stmt {
